@@ -267,7 +267,19 @@ static void do_test(const char *p, int first) {
   emit("%s{\"p\":", first ? "" : ",");
   jstr(p);
   if (lstat(p, &st) != 0) {
-    emit(",\"k\":\"A\",\"ro\":-1,\"ops\":[]}");
+    // nothing there: can the program put something of its own at this very path?
+    emit(",\"k\":\"A\",\"ro\":-1,\"ops\":[");
+    first_op = 1;
+    int r = mkdir(p, 0755);
+    op("mkdir_at", r);
+    if (r == 0) rmdir(p);
+    int fd = open(p, O_CREAT | O_EXCL | O_WRONLY, 0644);
+    op("create_at", fd < 0 ? -1 : 0);
+    if (fd >= 0) {
+      close(fd);
+      unlink(p);
+    }
+    emit("]}");
     return;
   }
   int ro = ro_flag(p);
